@@ -930,7 +930,8 @@ fn gen_tensor(rng: &mut Rng, name: &str) -> Vec<u8> {
     }
     let dt = *rng.pick(&[1u64, 1, 1, 7, 7, 6, 2, 3, 9, 10, 11, 0, 8, 99, u64::MAX]);
     t.extend(vi(2, dt));
-    let n: i128 = dims.iter().map(|&d| d as i128).product();
+    // (three dims near 2^63 overflow even i128: saturate)
+    let n: i128 = dims.iter().fold(1i128, |a, &d| a.checked_mul(d as i128).unwrap_or(i128::MAX));
     let elem = match dt {
         1 | 6 => 4,
         7 | 11 => 8,
